@@ -17,7 +17,7 @@ META = dict(
     text="TLC proves that the description-based algorithm of cmd_undo/cmd_redo (with op restore / op revert as "
          "ordinary operations) refines an editor-style undo stack of views for every command word over "
          "{op, undo, redo} up to 7 commands (9 thorough) and over {op, undo, redo, revert, restore k} up to 4 (5). "
-         "TLC then generates the words (all words of length 5 quick / 7 thorough, plus random words with "
+         "TLC then generates the words (all words of length 4 quick / 7 thorough, plus random words with "
          "restore/revert); the driver runs each through the real jj binary (clean and dirty working copies, "
          "snapshot operations counted as operations) and projects, after every command, the view of the head "
          "operation through jj-lib; Trace_UndoStack judges each session against the abstract stack: exact "
@@ -120,13 +120,11 @@ class Replayer:
         env.jj_ok(env.path("repo"), "describe", "-m", "setup")
         return env
 
-    def run_step(self, env, node, path, steps, pending):
+    def run_step(self, env, node, path, steps, pending, chain0):
         """execute trie node `node` (reached by word `path`) in env; returns (steps', pending')
         pending = a deferred dirty edit whose snapshot operation the next jj command creates"""
         w = env.path("repo")
         rng = random.Random("%s/%s" % (self.seed, path))
-        d0 = env.dump(w)
-        chain0 = chain_of(d0)
         n0 = len(chain0)
         has_wc = "default" in chain0[-1]["view"]["wc"]
         leaf = not node.children
@@ -155,7 +153,7 @@ class Replayer:
             else:
                 with open(os.path.join(w, "f"), "w") as f:
                     f.write("d-" + tag + "\n")
-                return steps, {"a": "op", "k": 0}
+                return steps, {"a": "op", "k": 0}, chain0
         elif node.sym == "undo":
             argv = ["undo"]
         elif node.sym == "redo":
@@ -191,9 +189,9 @@ class Replayer:
                           "tgt": desc[i][2], "nops": len(new)})
         else:
             steps.append({"a": node.sym, "k": node.k, "ok": ok, "view": desc[-1][0], "kind": "none", "tgt": 0, "nops": 0})
-        return steps, None
+        return steps, None, chain1
 
-    def visit(self, env, node, path, steps, pending, depth_limit=None, tasks=None):
+    def visit(self, env, node, path, steps, pending, chain, depth_limit=None, tasks=None):
         """DFS below `node` (already executed in env).  env is consumed (closed)."""
         try:
             kids = list(node.children.items())
@@ -205,7 +203,7 @@ class Replayer:
                 e2 = clone_env(env) if i < len(kids) - 1 else env
                 cpath = (path + " " + (child.sym if child.sym != "restore" else "restore%d" % child.k)).strip()
                 try:
-                    s2, p2 = self.run_step(e2, child, cpath, steps, pending)
+                    s2, p2, c2 = self.run_step(e2, child, cpath, steps, pending, chain)
                 except Truncated:
                     self.sessions.append({"op": "session", "init": INIT_OPS, "steps": steps, "word": cpath + " (truncated)",
                                           "argv": [a for _, a, _ in e2.log[2:]]})
@@ -216,9 +214,9 @@ class Replayer:
                     e2.close()
                     raise
                 if tasks is not None and depth_limit is not None and len(cpath.split()) >= depth_limit and child.children:
-                    tasks.append((e2, child, cpath, s2, p2))
+                    tasks.append((e2, child, cpath, s2, p2, c2))
                 else:
-                    self.visit(e2, child, cpath, s2, p2, depth_limit, tasks)
+                    self.visit(e2, child, cpath, s2, p2, c2, depth_limit, tasks)
                 if e2 is env:
                     env = None
         finally:
@@ -229,7 +227,10 @@ class Replayer:
         trie = build_trie(behaviours)
         env = self.new_env()
         tasks = []
-        self.visit(env, trie, "", [], None, depth_limit=2, tasks=tasks)
+        chain = chain_of(env.dump(env.path("repo")))
+        if len(chain) != INIT_OPS:
+            raise vf.ToolError("C41 driver: setup produced %d operations, expected %d" % (len(chain), INIT_OPS))
+        self.visit(env, trie, "", [], None, chain, depth_limit=2, tasks=tasks)
         with ThreadPoolExecutor(max_workers=par) as ex:
             futs = [ex.submit(self.visit, *t) for t in tasks]
             errs = []
@@ -251,21 +252,23 @@ def run(ctx):
     for mod_cfg in (ctx.q("MC_UndoStack", "MC_UndoStack_thorough"), ctx.q("MC_UndoStack_rr", "MC_UndoStack_rr_thorough")):
         r = vf.tlc_mc("MC_UndoStack", mod_cfg, workers=ctx.q(4, 8), timeout=ctx.q(300, 1500))
         ctx.add_mc(r, mod_cfg)
-    for bug in ("undo_no_jump", "undo_no_collapse", "redo_no_jump", "redo_any"):
-        vf.tlc_mc("MC_UndoStack", "MC_UndoStack_neg_" + bug, expect_violation="InvRefines", workers=2)
+    bugs = ("undo_no_jump", "undo_no_collapse", "redo_no_jump", "redo_any")
+    with ThreadPoolExecutor(max_workers=4) as ex:
+        list(ex.map(lambda bug: vf.tlc_mc("MC_UndoStack", "MC_UndoStack_neg_" + bug, expect_violation="InvRefines", workers=1), bugs))
+    for bug in bugs:
         ctx.cov["tlc_runs"].append({"run": "negative:" + bug, "outcome": "fails as required (InvRefines)"})
     # 2. S->I: TLC generates the command words (with the expected result of every step)
     batches = []
-    exh, r = vf.tlc_generate("MC_UndoStack", ctx.q("MC_UndoStack_gen5", "MC_UndoStack_gen7"), timeout=600)
+    exh, r = vf.tlc_generate("MC_UndoStack", ctx.q("MC_UndoStack_gen4", "MC_UndoStack_gen7"), timeout=600)
     ctx.add_mc(r, "generator:exhaustive")
     batches.append(exh)
     if not ctx.thorough:
-        rnd, r = vf.tlc_generate("MC_UndoStack", "MC_UndoStack_gen7", simulate="num=40", seed=ctx.seed + 1, timeout=300)
+        rnd, r = vf.tlc_generate("MC_UndoStack", "MC_UndoStack_gen7", simulate="num=10", seed=ctx.seed + 1, timeout=300)
         batches.append(rnd)
-    rr, r = vf.tlc_generate("MC_UndoStack", "MC_UndoStack_genrr", simulate="num=%d" % ctx.q(50, 600),
+    rr, r = vf.tlc_generate("MC_UndoStack", "MC_UndoStack_genrr", simulate="num=%d" % ctx.q(12, 150),
                             seed=ctx.seed + 2, timeout=300)
     batches.append(rr)
-    want = 3 ** ctx.q(5, 7)
+    want = 3 ** ctx.q(4, 7)
     if len(exh) != want:
         raise vf.ToolError("generator produced %d words, expected %d" % (len(exh), want))
     # 3. replay through the real CLI, sharing prefixes (trie + repository copies)
@@ -303,9 +306,9 @@ def run(ctx):
     ctx.cov["rule"] = ("sessions = maximal command words generated by TLC from MC_UndoStack (all %d words of length %d over "
                        "{op,undo,redo}; random words with revert/restore), replayed through the real jj CLI with prefix sharing; "
                        "evaluations = jj commands executed; non-trivial = distinct words with at least one successful "
-                       "undo/redo/restore/revert" % (want, ctx.q(5, 7)))
+                       "undo/redo/restore/revert" % (want, ctx.q(4, 7)))
     ctx.cov["exhaustive"] = True
-    ctx.cov["exhaustive_domain"] = "all command words of length %d over {op, undo, redo}" % ctx.q(5, 7)
+    ctx.cov["exhaustive_domain"] = "all command words of length %d over {op, undo, redo}" % ctx.q(4, 7)
     ctx.cov["step_kinds"] = {"%s/%s" % (a, "ok" if ok else "fails"): n for (a, ok), n in sorted(kinds.items())}
     ctx.cov["op_variants"] = rep.variants
     for s in rep.sessions[:2] + rep.sessions[-2:]:
